@@ -936,7 +936,7 @@ def r19_5(ctx: Ctx) -> None:
         ctx.record(R, ctx.key(fn, "probability vector is index-aligned with the action map"), fn.loc(call), ok,
                    f"p = {unparse(p_arg)}{via}: {how}" + ("" if ok else "; no validator re-orders the mapping: entry i of the vector is the "
                                                           "i-th *written* probability, not the probability of action i"))
-    ok_n = n_arg is not None and unparse(n_arg) == "len(self.action_manager.action_map)"
+    ok_n = n_arg is not None and unparse(ld.expand(n_arg)) == "len(self.action_manager.action_map)"
     ctx.record(R, ctx.key(fn, "samples an index of the action map"), fn.loc(call), ok_n and recv == "self.rng",
                f"{recv}.choice({unparse(n_arg)}, ...)")
     rets = [n for n in g.nodes if n.kind == "stmt" and isinstance(n.ast, ast.Return)]
